@@ -12,7 +12,7 @@ KANI_FLAGS = [
     "--output-format=terse",
 ]
 
-MEM_CAP_BYTES = int(os.environ.get("VERIF_KANI_MEM_GB", "14")) * (1 << 30)
+MEM_CAP_BYTES = int(os.environ.get("VERIF_KANI_MEM_GB", "40")) * (1 << 30)
 
 
 def _env(target):
@@ -133,7 +133,7 @@ def _classify(hid, res, pd, err):
             if c.get("status") in ("Failure", "Undetermined") and c.get("category") != "cover":
                 loc = c.get("location") or {}
                 r["failed_checks"].append({"desc": c.get("description", ""), "file": loc.get("file", ""),
-                                           "line": int(loc.get("line") or 0), "fn": c.get("function", ""),
+                                           "line": int(loc.get("line")) if str(loc.get("line") or "").isdigit() else 0, "fn": c.get("function", ""),
                                            "status": c.get("status"), "category": c.get("category")})
         st = res.get("status")
         if st == "Success":
